@@ -617,6 +617,7 @@ type call struct {
 	tInherited bool // the target is defined by a board the addressed board starts from
 	tImpValue  bool // the target is declared as `key: @file`
 	dImpValue  bool // the destination container / a connection end is declared as `key: @file`
+	srcHasNull bool // the source contains `key: null` statements (left by deletions of imported / inherited elements)
 }
 
 // ctxSuffix names the construct an edit touches; it is appended to every violation signature.
@@ -634,6 +635,8 @@ func (c *call) ctxSuffix() string {
 		return "@inherited-target"
 	case c.bd != 0:
 		return "@board"
+	case c.srcHasNull:
+		return "@source-has-null"
 	}
 	return ""
 }
@@ -1255,6 +1258,7 @@ func (x *exec) execute(step int, c *call, chk checker) bool {
 		return false
 	}
 	x.steps++
+	c.srcHasNull = strings.Contains(x.text, ": null")
 	x.cur = c
 	defer func() { x.cur = nil }()
 	x.trace = append(x.trace, fmt.Sprintf("#%d %s", step, c))
